@@ -148,12 +148,13 @@ theorem skip_while_indexed_pure (lag : Bool) (q : α → Nat → Bool) (raw : Li
       = outSeq ((((elems raw).zipIdx 0).dropWhile (fun t => q t.1 t.2)).map (·.1)) (fin raw) := by
   rw [skip_while_indexed_eq, refSkipWhileIdx_pure]
 
-/-- `distinct` with a key mapper that may raise and a total comparer (a raising comparer is C09's). -/
-theorem distinct_eq (lag : Bool) (key : α → Except Err κ) (cmp : κ → κ → Bool) (raw : List (Notif α)) :
+/-- `distinct` with key mapper and comparer that may raise (→ `on_error`, as the code does since the
+`fix:` for the comparer). -/
+theorem distinct_eq (lag : Bool) (key : α → Except Err κ) (cmp : κ → κ → Except Err Bool) (raw : List (Notif α)) :
     visible ((distinctOp key cmp).run lag raw) = refDistinct key cmp [] (elems raw) (fin raw) := by
   rw [run_sem, sem_distinct]
 theorem distinct_pure (lag : Bool) (g : α → κ) (cmp : κ → κ → Bool) (raw : List (Notif α)) :
-    visible ((distinctOp (fun x => .ok (g x)) cmp).run lag raw)
+    visible ((distinctOp (fun x => .ok (g x)) (fun a b => .ok (cmp a b))).run lag raw)
       = outSeq ((elems raw).eraseDupsBy (fun new old => cmp (g old) (g new))) (fin raw) := by
   rw [distinct_eq, refDistinct_pure]
 
